@@ -54,6 +54,10 @@ def build_model(name, dtype=torch.float32, seed=0):
                           Flat(), nn.Linear(2 * 1 * 3, 2))
     elif name == 'seq3d':   # N-d linear inputs
         m = nn.Sequential(nn.Linear(3, 3), nn.Tanh(), nn.Linear(3, 2))
+    elif name == 'nbfirst':  # bias-free layer registered before a biased one
+        m = nn.Sequential(nn.Linear(3, 3, bias=False), nn.Tanh(),
+                          nn.Linear(3, 2), nn.Tanh(),
+                          nn.Linear(2, 2, bias=False))
     elif name == 'wide':    # rank-deficient batches, indefinite bf16 factors
         m = nn.Sequential(nn.Linear(12, 10), nn.Tanh(),
                           nn.Linear(10, 8, bias=False))
@@ -75,7 +79,7 @@ def input_shape(name, batch):
         'mlp3': (batch, 3), 'mlp2': (batch, 3), 'lin1': (batch, 3),
         'sq': (batch, 2), 'conv': (batch, 1, 3, 3),
         'convsq': (batch, 2, 2, 3), 'seq3d': (batch, 2, 3),
-        'mixed': (batch, 3), 'wide': (batch, 12),
+        'mixed': (batch, 3), 'wide': (batch, 12), 'nbfirst': (batch, 3),
     }[name]
 
 
